@@ -35,7 +35,7 @@ func c13Groups(tier string) []core.Group {
 	gs = append(gs, core.Group{Key: "repeat-calc", Run: c13Repeat})
 	gs = append(gs, core.Group{Key: "concat-calc", Run: c13Concat})
 	gs = append(gs, core.Group{Key: "transpose-calc", Run: c13Transpose})
-	for _, lay := range []string{gen.LC, gen.LF, gen.LFconv, gen.LT, gen.LS, gen.LSS, gen.LMS, gen.LST, gen.LTS, "Tfull", "Cfull"} {
+	for _, lay := range []string{gen.LC, gen.LF, gen.LFconv, gen.LT, gen.LS, gen.LSS, gen.LMS, gen.LST, gen.LTS, gen.LCSS, gen.LSSS, "Tfull", "Cfull"} {
 		lay := lay
 		gs = append(gs, core.Group{Key: "reshape/" + lay, Run: func(c *core.Ctx) { c13Reshape(c, lay) }})
 	}
@@ -521,7 +521,7 @@ func c13Reshape(c *core.Ctx, lay string) {
 		for _, shape := range shapes {
 			n := model.Size(shape)
 			targets := factorisations(n, 4)
-			targets = append(targets, []int{n + 1}, []int{n - 1}, []int{2, n}, []int{})
+			targets = append(targets, []int{n + 1}, []int{n - 1}, []int{2, n}, []int{}, []int{-1})
 			for _, target := range targets {
 				srcLay := lay
 				switch lay {
@@ -546,6 +546,13 @@ func c13Reshape(c *core.Ctx, lay string) {
 						c.Inconclusive("operand-precondition:" + lay)
 						continue
 					}
+				}
+				if len(target) == 1 && target[0] == -1 {
+					// the length of the storage window, where that is not the number of elements (views with gaps and their clones)
+					if op.D.DataSize() == n {
+						continue
+					}
+					target = []int{op.D.DataSize()}
 				}
 				snap := op.Snap()
 				before := gen.MetaOf(op.D)
@@ -594,8 +601,10 @@ func c13Reshape(c *core.Ctx, lay string) {
 					continue
 				}
 				if err != nil {
-					if lay == gen.LS || lay == gen.LSS || lay == gen.LST || lay == gen.LTS || lay == "Tfull" {
-						c.Refused("Reshape|view")
+					if d := before.Diff(gen.MetaOf(op.D)); d != "" {
+						viol("refused-but-changed", "tensor untouched", d)
+					} else if lay == gen.LS || lay == gen.LSS || lay == gen.LST || lay == gen.LTS || lay == gen.LSSS || lay == gen.LCSS || lay == "Tfull" {
+						c.Refused("Reshape|non-contiguous") // (the clone of a stepped slice is not a view, but as little contiguous)
 					} else {
 						viol("refused-equal-size", "a reshaped tensor", err.Error())
 					}
